@@ -17,7 +17,7 @@ FILTERS = [('*', lambda m: True), ('wl_surface', None), ('! .commit', None)]
 MATCHERS = [(0, 1, 0, 0), (0, 0, 1, 0), (0, 2, 0, 0), (0, 4, 0, 0), (0, 0, 2, 0), (0, 0, 3, 0), (2, 0, 4, 0), (1, 1, 1, 0),
             (0, 0, 4, 2), (0, 0, 4, 7), (0, 5, 0, 0), (0, 17, 0, 0), (0, 0, 4, 6), (0, 0, 4, 9), (0, 3, 0, 0), (0, 10, 1, 0),
             (0, 0, 7, 0), (0, 0, 4, 13), (0, 16, 0, 0), (5, 0, 1, 0)]
-HISTORIES = {'empty': 0, 'one': 1, 'twelve': None, 'universe': len(ms.UNIVERSE)}
+HISTORIES = {'empty': 0, 'one': 1, 'twelve': None, 'universe': len(ms.UNIVERSE), 'universe_live_commands': len(ms.UNIVERSE)}
 
 
 def history_msgs(name):
@@ -54,7 +54,17 @@ def evaluate(case):
         s = sut.Session(filt=None if fi == 0 else FILTERS[fi][0], stop='wl_keyboard')
         shown_all = []
         s2 = sut.Session()     # unfiltered twin: the canonical line of every message
-        for l in lines:
+        for n, l in enumerate(lines):
+            if case['history'] == 'universe_live_commands':
+                # commands typed while messages arrive (GDB mode, or a slow program): recording must not depend on them
+                if n == 10:
+                    s.cmd('connection A')
+                elif n == 46:
+                    s.cmd('filter ! .commit' if fi != 2 else 'filter wl_surface')
+                elif n == 50:
+                    s.cmd('connection B')
+                elif n == 54:
+                    s.cmd('connection all')
             s.feed_line(l)
             o, _ = s2.feed_line(l)
             shown_all.append([x for x in o if outparse.classify(x)[0] == 'message'][0])
@@ -67,6 +77,8 @@ def evaluate(case):
                     return Eval(V)
                 sel = 'all'
         # the query
+        if case['matcher'] == 'absent' and case['history'] == 'universe_live_commands':
+            return Eval([], outcome='current filter changed mid-way', nontrivial=False)
         if case['matcher'] == 'absent':
             mtext, den = '', filter_den(fi)
         elif case['matcher'] == 'bad':
@@ -142,7 +154,7 @@ def evaluate(case):
 def gen_cases(tier):
     matchers = ['absent', '*', '!', 'bad'] + [list(m) for m in (MATCHERS[:9] if tier == 'quick' else MATCHERS)]
     caps = ['absent', 0, 1, 2, 'k-1', 'k', 'k+1', 99] + ([3, 7] if tier != 'quick' else [])
-    hists = ['empty', 'one', 'twelve', 'universe']
+    hists = ['empty', 'one', 'twelve', 'universe', 'universe_live_commands']
     for h in hists:
         for fi in range(len(FILTERS)):
             for sel in ('all', 'A', 'B'):
